@@ -743,10 +743,32 @@ func (x *Exec) havocLoopTargets(st *State, body []ast.Node, extraModifies []*Cla
 		}
 	}
 	for key := range mod.heap {
-		x.heapGet(st, key)
+		pre := x.heapGet(st, key)
 		nm := x.d.freshName("H_" + key)
 		x.d.declareConst(nm, x.d.heapSorts[key])
 		st.heap[key] = nm
+		// loop frame: if every store to this field inside the loop goes through a
+		// loop-invariant identifier, all other objects allocated before the loop keep their value
+		if bases := mod.heapBases[key]; len(bases) > 0 && !mod.heapUnknown[key] {
+			var excl []string
+			ok := true
+			for _, b := range bases {
+				o := x.info().ObjectOf(b)
+				if o == nil || mod.vars[o] || x.pkg.addrTaken[o] {
+					ok = false
+					break
+				}
+				v, has := st.vars[o]
+				if !has || v.Fn != nil {
+					ok = false
+					break
+				}
+				excl = append(excl, not(eq("r", v.S)))
+			}
+			if ok {
+				st.assume(fmt.Sprintf("(forall ((r Int)) (! (=> %s (= (select %s r) (select %s r))) :pattern ((select %s r))))", and(append([]string{fmt.Sprintf("(select %s r)", st.alloc)}, excl...)...), nm, pre, nm))
+			}
+		}
 	}
 	for g := range mod.ghost {
 		cur := x.ghostGet(st, g)
